@@ -156,8 +156,11 @@ func srvIDOf(m p9p.Message) int {
 	return -1
 }
 
+// sizes of read results (0: just the id); the second fills the negotiated msize to the last byte
+var srvReadSizes = []int{0, p9p.DefaultMSize - 11, p9p.DefaultMSize - 12, p9p.DefaultMSize - 14, 100}
+
 // the result handler i returns: a reply of the matching type carrying i, or an error text for i%3==0
-func srvResult(i int, uniform bool) (p9p.Message, error) {
+func srvResult(i int, uniform bool, sz int) (p9p.Message, error) {
 	if i%3 == 0 {
 		return nil, fmt.Errorf("e%d", i)
 	}
@@ -170,7 +173,13 @@ func srvResult(i int, uniform bool) (p9p.Message, error) {
 	case 3:
 		return p9p.MessageRopen{Qid: q, IOUnit: 5}, nil
 	case 4:
-		return p9p.MessageRread{Data: []byte(fmt.Sprintf("r%d", i))}, nil
+		// read results of various sizes, up to one that fills the negotiated msize to the last byte
+		d := []byte(fmt.Sprintf("r%d ", i))
+		n := srvReadSizes[sz%len(srvReadSizes)]
+		for k := len(d); k < n; k++ {
+			d = append(d, byte(k*7+i))
+		}
+		return p9p.MessageRread{Data: d}, nil
 	case 5:
 		return p9p.MessageRwrite{Count: uint32(i)}, nil
 	case 6:
@@ -228,9 +237,14 @@ func srvClassify(fc *p9p.Fcall) (kind string, src int) {
 // the reply must be exactly what handler i returned
 func srvCheck(i int, got p9p.Message) (string, int) {
 	for _, uniform := range []bool{false, true} {
-		want, err := srvResult(i, uniform)
-		if err == nil && i > 0 && reflect.DeepEqual(normMsg(want), normMsg(got)) {
-			return "res", i
+		for sz := range srvReadSizes {
+			want, err := srvResult(i, uniform, sz)
+			if err == nil && i > 0 && reflect.DeepEqual(normMsg(want), normMsg(got)) {
+				return "res", i
+			}
+			if _, isRead := want.(p9p.MessageRread); !isRead {
+				break
+			}
 		}
 	}
 	return "other", i
@@ -275,7 +289,7 @@ func (h srvHandler) Handle(ctx context.Context, msg p9p.Message) (p9p.Message, e
 		case <-ctx.Done():
 		}
 	}
-	res, err := srvResult(id, r.uniform)
+	res, err := srvResult(id, r.uniform, r.sc/2)
 	k := "res"
 	if err != nil {
 		k = "err"
